@@ -192,7 +192,7 @@ func C20(c *core.Ctx) {
 					return 0, 0
 				}
 				isDepth := func(v ssa.Value) bool {
-					cl, ok := core.StripConv(v).(*ssa.Call)
+					cl, ok := core.Resolve(core.StripConv(v)).(*ssa.Call)
 					if !ok {
 						return false
 					}
@@ -347,7 +347,7 @@ func C20(c *core.Ctx) {
 					}
 				}
 			}
-			sl := &core.Slicer{P: p}
+			sl := &core.Slicer{P: p, Root: ex}
 			hasLeaf := func(v ssa.Value, pred func(core.Leaf) bool) bool {
 				if v == nil {
 					return false
@@ -364,7 +364,10 @@ func C20(c *core.Ctx) {
 			okCb := hasLeaf(fieldSrc["callback"], func(l core.Leaf) bool { return l.Val == ssa.Value(ex.Params[2]) })
 			c.Decide(okCb, "R20.2", "entry-callback-from-caller", c.Pos(ent), "pendInt.callback originates from Express's callback argument", "the pending entry's callback is not the caller's callback")
 			okDl := false
-			if cl, ok := core.Strip(derefFree(fieldSrc["deadline"], insFn)).(*ssa.Call); ok {
+			restoreEx := core.WithRoot(ex)
+			dl := core.Resolve(derefFree(fieldSrc["deadline"], insFn))
+			restoreEx()
+			if cl, ok := dl.(*ssa.Call); ok {
 				if _, ok := core.IsCall(cl, core.CalleeID{Pkg: "time", Recv: "Time", Name: "Add"}); ok {
 					r, _ := core.CallArgs(&cl.Call)
 					if rc, ok := core.Strip(r).(*ssa.Call); ok && rc.Call.IsInvoke() && rc.Call.Method.Name() == "Now" {
@@ -406,6 +409,9 @@ func C20(c *core.Ctx) {
 					cl, ok := x.(*ssa.Call)
 					if !ok {
 						return false
+					}
+					if cl.Call.StaticCallee() == insFn {
+						return true // the insertion lives in a method of its own
 					}
 					mc, ok := cl.Call.Value.(*ssa.MakeClosure)
 					return ok && mc.Fn == ssa.Value(insFn)
